@@ -18,7 +18,7 @@ RULE = (
 ASSUMPTIONS = ['kinetic energy is read through the state\'s own mass matrix (its correctness is C02\'s business)',
                'linear momentum of a free tree is read as (mass_mx @ qd)[root linear dofs], the momentum conjugate to the root translation',
                'runs whose velocity exceeds 1e3 or turns non-finite are counted diverged_not_compared']
-TOLERANCES = {'extrapolated_drift': '1e-5*(|KE0| + |d(h)|) + 1e-9 (measured worst 3e-7 relative: the h^3 term left by two Richardson steps)', 'halving': '|d(h/4)| <= 0.6 |d(h/2)| + floor'}
+TOLERANCES = {'extrapolated_drift': '1e-5*(|KE0| + |d(h)|) + 1e-9 + 2*|R2(h,h/2,h/4) - R2(h/2,h/4,h/8)| (measured worst 3e-7 relative: the h^3 term left by two Richardson steps)', 'halving': '|d(h/4)| <= 0.6 |d(h/2)| + floor'}
 H = 0.064
 DTS = [1e-3 / 2 ** i for i in range(4)]
 
@@ -94,11 +94,14 @@ def check(case, ctx=None):
     r2 = [(4 * r1[j + 1] - r1[j]) / 3 for j in range(2)]
     scale = abs(ke0[i]) + abs(d[0])
     floor = 1e-5 * scale + 1e-9
-    worst['energy_R2_rel'] = max(worst.get('energy_R2_rel', 0.0), abs(r2[1]) / (scale + 1e-4))
-    if not abs(r2[1]) <= floor:
+    # r2[0] uses (h, h/2, h/4), r2[1] uses (h/2, h/4, h/8): their difference estimates what two Richardson steps leave
+    # behind when h is not yet in the asymptotic regime (stiff springs); an inconsistent integrator gives r2[0] ~ r2[1] ~ c0
+    err_est = abs(r2[0] - r2[1])
+    worst['energy_R2_rel'] = max(worst.get('energy_R2_rel', 0.0), max(0.0, abs(r2[1]) - 2 * err_est) / (scale + 1e-4))
+    if not abs(r2[1]) <= floor + 2 * err_est:
       raise Violation('energy_consistency', f'state {i}: energy drift over {H}s at dt/1,2,4,8 = {d.tolist()}; extrapolated to dt->0: {r2[1]:.3e} '
                       f'(KE0 {ke0[i]:.3e}): the energy is not conserved in the small-step limit', labels={'check': 'energy'})
-    if not abs(d[2]) <= 0.6 * abs(d[1]) + floor:
+    if not abs(d[2]) <= 0.6 * abs(d[1]) + floor + 2 * err_est:
       raise Violation('energy_order', f'state {i}: energy drift does not shrink with the step: {d.tolist()}', labels={'check': 'energy_order'})
     if lin:
       pp = dp[:, i]
@@ -107,11 +110,12 @@ def check(case, ctx=None):
       pscale = np.abs(np.asarray(q[i])).max() * 0 + tree_mass.max() * (1.0 + np.abs(qd[i]).max()) + np.abs(pp[0]).max()
       pfloor = 1e-5 * pscale + 1e-9
       e = float(np.abs(r2[1]).max())
-      worst['momentum_R2_rel'] = max(worst.get('momentum_R2_rel', 0.0), e / pscale)
-      if not e <= pfloor:
+      perr = float(np.abs(r2[0] - r2[1]).max())
+      worst['momentum_R2_rel'] = max(worst.get('momentum_R2_rel', 0.0), max(0.0, e - 2 * perr) / pscale)
+      if not e <= pfloor + 2 * perr:
         raise Violation('momentum_consistency', f'state {i}: P - M g t drift at dt/1,2,4,8 = {np.abs(pp).max(axis=(1, 2)).tolist()}; extrapolated {e:.3e}: '
                         'linear momentum of a free-floating tree is not conserved in the small-step limit', labels={'check': 'momentum'})
-      if not np.abs(pp[2]).max() <= 0.6 * np.abs(pp[1]).max() + pfloor:
+      if not np.abs(pp[2]).max() <= 0.6 * np.abs(pp[1]).max() + pfloor + 2 * perr:
         raise Violation('momentum_order', f'state {i}: momentum drift does not shrink with the step: {np.abs(pp).max(axis=(1, 2)).tolist()}',
                         labels={'check': 'momentum_order'})
     fps.append((fingerprint([modelgen.topology_signature(spec), q[i].tolist(), qd[i].tolist()]), bool(ke0[i] > 1e-3 and has_joint)))
